@@ -228,6 +228,8 @@ func c14(tier string) []*explore.Scenario {
 	}
 	// batches of RPCs in flight at once (all kinds, mixed outcomes), repeated from the state the previous batch left
 	out = append(out, c14Batch(8, 2, 1), c14Batch(16, 2, 0), c14Batch(32, 2, 0))
+	// RPCs pending on the server at once (more than the 8 workers of the unary pool; up to 32 in all)
+	out = append(out, c14Pending(8, 0, 2, 0), c14Pending(9, 0, 2, 0), c14Pending(12, 4, 3, 0), c14Pending(24, 8, 2, 0), c14Pending(3, 1, 1, 1))
 	if tier == "thorough" {
 		out = append(out, c14Batch(8, 2, 2), c14Batch(32, 3, 1))
 	}
@@ -538,6 +540,62 @@ func c14History(n int) *explore.Scenario {
 			}
 			vsched.Count("inputs", int64(n))
 			vsched.Obs("history of %d RPCs: idle after each", n)
+		},
+	}
+}
+
+// c14Pending: k unary calls (and s streams) are pending on the server at once - their handlers
+// wait for a gate - in `rounds` bursts; after every burst the connection (both ends: the snapshot
+// includes every goroutine of the bubble) is back in the state it had when idle.
+func c14Pending(k, s, rounds, bound int) *explore.Scenario {
+	fam := "C14/release"
+	return &explore.Scenario{
+		Name: fmt.Sprintf("C14/pending/unary=%d/streams=%d/rounds=%d", k, s, rounds), Family: fam, Prop: "C14", Bound: bound, Horizon: time.Hour, SelectCost: true,
+		Run: func() {
+			w := env.NewWorld()
+			d := env.NewDirect(w, env.DirectOpts{Pipe: env.PipeOpts{Cap: 256}})
+			d.Pipe.Tap = nil
+			vsched.Settle()
+			idle := c14State(d)
+			vsched.Explore(true)
+			for round := 0; round < rounds; round++ {
+				gate := make(chan struct{})
+				var rs []*env.Rec
+				for i := 0; i < k; i++ {
+					tag := fmt.Sprintf("p%d.%d", round, i)
+					r := w.Rec(tag, "Unary")
+					rs = append(rs, r)
+					w.Unaries[tag] = func(r *env.Rec, ctx context.Context, in string) (string, error) {
+						<-gate
+						return "R:" + in, nil
+					}
+					vsched.GoNamed("caller-"+tag, func() { w.CallUnary(d.CC, context.Background(), r, "x") })
+				}
+				for i := 0; i < s; i++ {
+					tag := fmt.Sprintf("q%d.%d", round, i)
+					r := w.Rec(tag, "Bidi")
+					w.Handlers[tag] = func(r *env.Rec, ss grpc.ServerStream) error {
+						<-gate
+						return env.HEcho(r, ss)
+					}
+					vsched.GoNamed("caller-"+tag, func() {
+						if cs := w.Open(d.CC, context.Background(), r); cs != nil {
+							env.PPingPong(1)(r, cs)
+						}
+					})
+				}
+				vsched.Quiesce()
+				close(gate)
+				vsched.QuiesceTime()
+				for _, r := range rs {
+					checkUnary(r, "x", fam)
+				}
+				if st := c14State(d); st != idle {
+					vsched.Fail(fam+"|not-idle:"+diffKey(idle, st)+"|pending", "after burst %d of %d unary calls and %d streams pending at once the connection did not return to its idle state:\n%s", round, k, s, diffStates(idle, st))
+					return
+				}
+			}
+			vsched.Obs("%d bursts of %d+%d pending: idle after each", rounds, k, s)
 		},
 	}
 }
